@@ -47,10 +47,10 @@ Qed.
 Theorem constraints_exact_l :
   forall sch steps,
     wf_schema sch ->
-    known_class (Hist sch steps) = 0 -> model_agrees (Hist sch steps) = true ->
+    side_class (Hist sch steps) = 0 -> model_agrees (Hist sch steps) = true ->
     spec_ok (Hist sch steps) = true.
 Proof.
-  intros sch steps W Hk Hm. unfold known_class, hist_class in Hk. unfold model_agrees in Hm. unfold spec_ok.
+  intros sch steps W Hk Hm. unfold side_class, hist_class in Hk. unfold model_agrees in Hm. unfold spec_ok.
   destruct (schema_class sch =? 0) eqn:Hs; [|destruct (schema_class sch); try discriminate; cbn in Hs; discriminate].
   exact (go_exact sch W steps (d_empty sch) (inv_empty sch) Hk Hm).
 Qed.
